@@ -2242,7 +2242,12 @@ class unyt_array(np.ndarray):
         """
         np_ret = super().__reduce__()
         obj_state = np_ret[2]
-        unit_state = (((str(self.units), self.units.registry.lut),) + obj_state[:],)
+        registry = self.units.registry
+        # prefixed entries that look-ups wrote back into the table are derived
+        # data: the loaded registry derives (and keeps track of) them again
+        derived = getattr(registry, "_derived_symbols", None) or ()
+        lut = {k: v for k, v in registry.lut.items() if k not in derived}
+        unit_state = (((str(self.units), lut),) + obj_state[:],)
         new_ret = np_ret[:2] + unit_state + np_ret[3:]
         return new_ret
 
